@@ -22,7 +22,11 @@ var thoroughPlan = func() []planItem {
 	var out []planItem
 	for _, role := range []spectypes.BeaconRole{spectypes.BNRoleAttester, spectypes.BNRoleProposer, spectypes.BNRoleAggregator,
 		spectypes.BNRoleSyncCommittee, spectypes.BNRoleSyncCommitteeContribution} {
-		out = append(out, planItem{role, "full", 6}, planItem{role, "local", 12}, planItem{role, "cert", 8})
+		local := 12
+		if role != spectypes.BNRoleAttester && role != spectypes.BNRoleSyncCommittee {
+			local = 11 // roles with a pre-consensus phase: 16 events, the 12th level alone has 1.9e5 new states
+		}
+		out = append(out, planItem{role, "full", 6}, planItem{role, "local", local}, planItem{role, "cert", 8})
 	}
 	return out
 }()
